@@ -1111,3 +1111,70 @@ Definition judge_C15 (c : c15case) : bool * bool * bool :=
    end,
    Nat.eqb (pr_errors c) 0 && program_eqb (pr_expected c) (pr_parsed c),
    true).
+
+(* ---- C15, token level: the implementation's own lexer against the reference lexer ---- *)
+Definition tkind_of_name (n : string) : option tkind :=
+  if String.eqb n "PLUS" then Some TPlus else if String.eqb n "VARS" then Some TVars else if String.eqb n "MAX" then Some TMax
+  else if String.eqb n "SOURCE" then Some TSource else if String.eqb n "DESTINATION" then Some TDestination
+  else if String.eqb n "SEND" then Some TSend else if String.eqb n "FROM" then Some TFrom else if String.eqb n "UP" then Some TUp
+  else if String.eqb n "TO" then Some TTo else if String.eqb n "REMAINING" then Some TRemaining
+  else if String.eqb n "ALLOWING" then Some TAllowing else if String.eqb n "UNBOUNDED" then Some TUnbounded
+  else if String.eqb n "OVERDRAFT" then Some TOverdraft else if String.eqb n "KEPT" then Some TKept else if String.eqb n "SAVE" then Some TSave
+  else if String.eqb n "LPARENS" then Some TLParens else if String.eqb n "RPARENS" then Some TRParens
+  else if String.eqb n "LBRACKET" then Some TLBracket else if String.eqb n "RBRACKET" then Some TRBracket
+  else if String.eqb n "LBRACE" then Some TLBrace else if String.eqb n "RBRACE" then Some TRBrace
+  else if String.eqb n "COMMA" then Some TComma else if String.eqb n "EQ" then Some TEq else if String.eqb n "STAR" then Some TStar
+  else if String.eqb n "MINUS" then Some TMinus else if String.eqb n "RATIO_PORTION_LITERAL" then Some TRatio
+  else if String.eqb n "PERCENTAGE_PORTION_LITERAL" then Some TPercent else if String.eqb n "STRING" then Some TString
+  else if String.eqb n "IDENTIFIER" then Some TIdentifier else if String.eqb n "NUMBER" then Some TNumber
+  else if String.eqb n "VARIABLE_NAME" then Some TVarName else if String.eqb n "ACCOUNT" then Some TAccount
+  else if String.eqb n "ASSET" then Some TAsset else None.
+
+Record tokcase := mk_tokcase {
+  tt_text : list Z;
+  tt_tokens : list (string * list Z * Z * Z);     (* symbolic name, text, line (0-based), column in code points *)
+  tt_errors : list (Z * Z) }.                     (* token recognition errors: line (0-based), column *)
+
+Definition zlist_eqb (a b : list Z) : bool := list_eqb Z.eqb a b.
+
+Definition tok_matches (t : token) (o : string * list Z * Z * Z) : bool :=
+  let '(n, txt, ln, col) := o in
+  match tkind_of_name n with
+  | Some k => tk_is k t && zlist_eqb (tk_text t) txt && (tk_line t =? ln) && (tk_col t =? col)
+  | None => false
+  end.
+
+(* positions of the implementation's tokens are exact: each token's text is found in the text at the
+   offset its (line, column) designates, and tokens do not overlap and come in order *)
+Fixpoint offset_of (l : list Z) (line col : Z) (cur_line cur_col : Z) (off : nat) : option nat :=
+  if (cur_line =? line) && (cur_col =? col) then Some off
+  else match l with
+       | [] => None
+       | c :: l' => if c =? 10 then offset_of l' line col (cur_line + 1) 0 (S off) else offset_of l' line col cur_line (cur_col + 1) (S off)
+       end.
+
+Fixpoint tokens_in_text (text : list Z) (min_off : nat) (toks : list (string * list Z * Z * Z)) : bool :=
+  match toks with
+  | [] => true
+  | (_, txt, ln, col) :: rest =>
+      match offset_of text ln col 0 0 O with
+      | Some off =>
+          (min_off <=? off)%nat && zlist_eqb (firstn (List.length txt) (skipn off text)) txt
+          && tokens_in_text text (off + List.length txt) rest
+      | None => false
+      end
+  end.
+
+Fixpoint list_match {A B} (f : A -> B -> bool) (l1 : list A) (l2 : list B) : bool :=
+  match l1, l2 with
+  | [], [] => true
+  | x :: l1', y :: l2' => f x y && list_match f l1' l2'
+  | _, _ => false
+  end.
+
+Definition judge_C15_tokens (c : tokcase) : bool * bool * bool :=
+  let '(toks, errs) := lex_text (tt_text c) in
+  (list_match tok_matches toks (tt_tokens c)
+   && list_eqb (fun a b : Z * Z => (fst a =? fst b) && (snd a =? snd b)) errs (tt_errors c),
+   tokens_in_text (tt_text c) O (tt_tokens c),
+   true).
